@@ -18,7 +18,10 @@ pub const NEG: Wide = Wide::MIN / 4;
 pub fn clamp_isize(x: Wide) -> isize { x.clamp(isize::MIN as Wide, isize::MAX as Wide) as isize }
 
 #[derive(Debug, Clone, Serialize, Deserialize, PartialEq, Eq)]
-pub enum Rub { None, Exact, Slack(isize) }
+pub enum Rub { None, Exact, Slack(isize),
+    /// exact value-to-go plus a slack of 0..4 that depends on the state (and layer): admissible but NOT consistent along arcs - a state may
+    /// have a tight bound while its parent's is loose and vice versa (a uniformly loose bound can never prune all children of a node it keeps)
+    Ragged(u64) }
 
 #[derive(Debug, Clone, Serialize, Deserialize, PartialEq, Eq)]
 pub enum DomRule {
@@ -86,6 +89,10 @@ pub struct GenOpts {
     /// one instance in `abyss_one_in` (0 = never) has arc costs around -2^61 and an initial value of 3 * 2^61: every prefix and total
     /// value fits an isize but the cost-to-go of 4 or more arcs does not (ddo's suffix bounds saturate at isize::MIN)
     pub abyss_one_in: u64,
+    /// one instance in `penalty_one_in` (0 = never) has 'forbidden' arcs in its LAST layer, encoded the way the shipped sop example
+    /// does: cost -isize::MAX (+ 0..3). Such an arc is only put on a state that keeps another, ordinary arc. The value of a path that
+    /// ends with it saturates at isize::MIN when its prefix is worth less than -1 (ddo's arithmetic saturates; so does `Inst::replay`)
+    pub penalty_one_in: u64,
 }
 
 impl Table {
@@ -103,7 +110,7 @@ impl Table {
         }
         let mut order: Vec<usize> = (0..n).collect();
         if rng.chance(1, 2) { for i in (1..n).rev() { let j = rng.below(i + 1); order.swap(i, j); } }
-        let rub = match rng.below(3) { 0 => Rub::None, 1 => Rub::Exact, _ => Rub::Slack(1 + rng.below(4) as isize) };
+        let rub = match rng.below(4) { 0 => Rub::None, 1 => Rub::Exact, 2 => Rub::Slack(*rng.pick(&[1isize, 2, 3, 4, 6, 10, 20])), _ => Rub::Ragged(rng.next()) };
         Table { n, s, d, next, cost, v0: 0, order, depth_in_state: !o.depth_free, irrelevant: vec![vec![false; s]; n], rub, pot: None, rank_seed: rng.next(), top_merge: false }
     }
     pub fn generate(rng: &mut Rng, o: GenOpts) -> Table {
@@ -157,7 +164,7 @@ impl Table {
         }
         let mut order: Vec<usize> = (0..n).collect();
         if rng.chance(1, 2) { for i in (1..n).rev() { let j = rng.below(i + 1); order.swap(i, j); } }
-        let rub = match rng.below(3) { 0 => Rub::None, 1 => Rub::Exact, _ => Rub::Slack(1 + rng.below(4) as isize) };
+        let rub = match rng.below(4) { 0 => Rub::None, 1 => Rub::Exact, 2 => Rub::Slack(*rng.pick(&[1isize, 2, 3, 4, 6, 10, 20])), _ => Rub::Ragged(rng.next()) };
         let pot = if rng.chance(1, 2) { Some((0..=n).map(|_| (0..s).map(|_| rng.below(4) as isize).collect()).collect()) } else { None };
         // one instance in ten lives far away from zero (very negative / very large initial value, costs scaled by 2^40): sums stay
         // below 2^60 in magnitude, so the reference arithmetic is exact and never meets the NEG sentinel (-2^61)
@@ -166,6 +173,13 @@ impl Table {
             let base: isize = -(1isize << 61);
             for l in 0..n { for a in 0..s { for x in 0..d { if !irrelevant[l][a] { cost[l][a][x] = base + cost[l][a][x].rem_euclid(8); } } } }
             v0 = 3 * (1isize << 61);
+        } else if o.penalty_one_in > 0 && n >= 2 && !top_merge && rng.chance(1, o.penalty_one_in) {
+            let l = n - 1;
+            for a in 0..s {
+                if irrelevant[l][a] { continue; }
+                let arcs: Vec<usize> = (0..d).filter(|x| next[l][a][*x].is_some()).collect();
+                if arcs.len() >= 2 && rng.chance(1, 2) { let x = arcs[rng.below(arcs.len())]; cost[l][a][x] = -isize::MAX + rng.below(4) as isize; }
+            }
         } else if rng.chance(1, 10) {
             let sc: isize = 1 << 40;
             for l in 0..n { for a in 0..s { for x in 0..d { cost[l][a][x] *= sc; } } }
@@ -245,7 +259,7 @@ impl Inst {
                     if b < 0 || b as usize >= self.t.d { return Err(format!("value {b} out of the domain of variable {var}")); }
                     match self.t.next[l][a][b as usize] {
                         None => return Err(format!("decision {var}={b} not in the domain at layer {l}, base state {a}")),
-                        Some(x) => { v += self.t.cost[l][a][b as usize]; a = x as usize; }
+                        Some(x) => { v = v.saturating_add(self.t.cost[l][a][b as usize]); a = x as usize; }
                     }
                 }
             }
@@ -269,7 +283,7 @@ impl Inst {
                 None => { if !self.t.irrelevant[l][a] { return Err(format!("prefix skips variable {var} (layer {l}) which impacts base state {a}")); } }
                 Some(b) => {
                     if b < 0 || b as usize >= self.t.d { return Err(format!("value {b} out of domain")); }
-                    match self.t.next[l][a][b as usize] { None => return Err(format!("decision {var}={b} infeasible at layer {l} state {a}")), Some(x) => { v += self.t.cost[l][a][b as usize]; a = x as usize; remaining -= 1; } }
+                    match self.t.next[l][a][b as usize] { None => return Err(format!("decision {var}={b} infeasible at layer {l} state {a}")), Some(x) => { v = v.saturating_add(self.t.cost[l][a][b as usize]); a = x as usize; remaining -= 1; } }
                 }
             }
             l += 1;
@@ -301,7 +315,7 @@ impl Inst {
                     if let Some(x) = self.t.next[l][a][b] {
                         let mut p = path.clone();
                         p.push(Decision { variable: Variable(self.t.order[l]), value: b as isize });
-                        stack.push((l + 1, x as usize, v + self.t.cost[l][a][b], p));
+                        stack.push((l + 1, x as usize, v.saturating_add(self.t.cost[l][a][b]), p));
                     }
                 }
             }
@@ -384,6 +398,7 @@ impl Relaxation for TRelax<'_> {
             Rub::None => isize::MAX,
             Rub::Exact => clamp_isize(h),
             Rub::Slack(k) => if h <= NEG { clamp_isize(h) } else { clamp_isize(h + k as Wide) },
+            Rub::Ragged(seed) => if h <= NEG { clamp_isize(h) } else { clamp_isize(h + (crate::rng::mix(seed, (st.layer.map_or(255u64, |l| l as u64) << 32) | st.set as u64) % 5) as Wide) },
         }
     }
 }
